@@ -1,7 +1,7 @@
 (* C30 — property theorems only.  Each is closed by `exact <lemma>` and followed by Print Assumptions. *)
 From Coq Require Import List NArith Bool Arith Permutation.
 From Verif.Common Require Import Packet PolicyRef.
-From Verif.C30 Require Import Model Spec ProofsCidr ProofsRule ProofsTier EndModel EndSpec EndProofsA EndProofsB EndProofsC.
+From Verif.C30 Require Import Model Spec ProofsCidr ProofsRule ProofsTier EndModel EndSpec EndProofsA EndProofsB EndProofsC HistModel HistSpec HistProofs.
 Import ListNotations.
 Open Scope N_scope.
 
@@ -169,6 +169,40 @@ Theorem c30_pass_leaves_last_list_refuted :
       /\ gives_of (endpoint_rules true [] CHUNK [ex_default_pass] [ex_prof_allow] [] true) (PK 6 1 2 3 4) HBlock = true).
 Proof. Time vm_compute. repeat split; reflexivity. Time Qed.
 Print Assumptions c30_pass_leaves_last_list_refuted.
+
+(* HISTORIES.  Model: the PolicySets store with the IP-set ids each policy set records (getReferencedIpSetIds: every
+   rule, rendered or not), ProcessIpSetUpdate re-rendering the policy sets that recorded the changed set, and the
+   Windows IP-set cache (AddOrReplaceIPSet / RemoveIPSet / AddMembers / RemoveMembers, each followed by the callback).
+   After ANY history of policy-set and IP-set operations, in any order, the cached rules of every policy set are the
+   rules computed fresh from its current policy and the current IP-set contents ... *)
+Theorem c30_history_independent : forall chunk h id e,
+  pstore_get (fst (run_history chunk h)) id = Some e ->
+  pe_members e = convert_policy (snd (run_history chunk h)) chunk (pe_ps e).
+Proof. exact history_independent. Qed.
+Print Assumptions c30_history_independent.
+
+(* ... so GetPolicySetRules after the history is what a fresh PolicySets would return for the current policies and
+   sets, and (with c30_same_verdict) evaluates to the PolicyRef verdict for the CURRENT state at every point. *)
+Theorem c30_history_rules_fresh : forall chunk h ids inbound eot,
+  observe (run_history chunk h) ids inbound eot
+  = tier_hns (snd (run_history chunk h)) chunk (current_pols (run_history chunk h) ids) inbound eot.
+Proof. exact observe_fresh. Qed.
+Print Assumptions c30_history_rules_fresh.
+
+Theorem c30_history_same_verdict : forall chunk h ids inbound eot p,
+  in_domain (snd (run_history chunk h)) chunk (current_pols (run_history chunk h) ids) inbound = true ->
+  packet_ok p = true ->
+  hns_gives (observe (run_history chunk h) ids inbound eot) inbound p
+            (expected (snd (run_history chunk h)) (current_pols (run_history chunk h) ids) inbound eot p) = true.
+Proof. exact history_same_verdict. Qed.
+Print Assumptions c30_history_same_verdict.
+
+(* Non-vacuity: the policy arrives while its IP set is empty (rule skipped), then the set gains a member. *)
+Example c30_example_history :
+  let h := [HSetReplace 1 []; HAddPolicy 0 (PS [RS Allow None None [] [] [] [] [1] [] []] []); HSetAdd 1 [C4 167772165 32]] in
+  map (fun n => map (fun r => (h_prio r, h_act r, h_raddrs r)) (observe (run_history CHUNK (firstn n h)) [0] true true)) [2%nat; 3%nat]
+  = [[(1001, HBlock, [])]; [(1000, HAllow, [C4 167772165 32]); (1001, HBlock, [])]].
+Proof. vm_compute. reflexivity. Qed.
 
 (* Non-vacuity at endpoint level: two tiers (the first passes tcp/80-90 on to the default tier, which allows 85-443)
    and a profile; in the domain for both directions, the flattened list combines the port lists. *)
